@@ -257,8 +257,9 @@ pub fn check(c: &KaCase, st: &mut Stats) -> Result<(), Viol> {
                     log.push(format!("t={} {} < {}", now, clients[ci].nick, l));
                 } else if l.contains(" PONG ") {
                     clients[ci].my_pongs += 1;
+                    // (a PONG that arrives late: the token may carry the trailing blank it was sent with)
                     let want = format!(":my{}", clients[ci].my_pings);
-                    if !l.ends_with(&want) {
+                    if !l.trim_end_matches(' ').ends_with(&want) {
                         return Err(fail("C17.pong_echoes_token", "pong-token".into(), format!("{} sent PING my{} and got `{}`", clients[ci].nick, clients[ci].my_pings, l), &log));
                     }
                 }
@@ -289,9 +290,12 @@ pub fn check(c: &KaCase, st: &mut Stats) -> Result<(), Viol> {
                 // (the RFC form with a second parameter naming the server is answered alike)
                 // rarely a token close to the line limit (the PONG is longer than the PING)
                 let t = if clients[ci].my_pings % 11 == 7 { format!("{}{}", "T".repeat(1975), t) } else { t };
+                // (sometimes the token ends in a blank: it comes back with it)
+                let t = if clients[ci].my_pings % 7 == 3 { format!("{} ", t) } else { t };
                 let form = match clients[ci].my_pings % 3 {
-                    0 => format!("PING {} irc.irc", t),
-                    1 => format!("PING :{}", t),
+                    0 if !t.ends_with(' ') => format!("PING {} irc.irc", t),
+                    0 | 1 => format!("PING :{}", t),
+                    _ if t.ends_with(' ') => format!("PING :{}", t),
                     _ => format!("PING {}", t),
                 };
                 // every now and then a PING with an empty token first: it is answered (with the
